@@ -180,3 +180,21 @@ chk("C37", "structural-invariant monitor after every Update/Remove on the real r
 chk("C38", "wallet reference model vs live client and vs a fresh client reloaded from the saved file",
     "Histories of NewAccount (6 key kinds), ImportAccount, DeleteAccount, SetDefaultAccount, SetLabel, ChangePassword (right / former / other / random old password), ChangeSigScheme through ClientImpl; after every op the live client equals the model and failed ops leave the file bytes unchanged; every 4-6 ops and at the end a fresh client on the file equals the model, each account opens with its current password to the same key (sign/verify probe) and refuses former, other and random passwords. 40 / 320 histories (scrypt-bound).",
     "importing an address already in the wallet and empty new passwords are outside the domain (guarded by the CLI)")
+
+# Families added in the second seeding round (appended to the level text of the check).
+ROUND2 = {
+    "C17": "Round 2: probing contracts ask System.Runtime.CheckWitness with every serialized public-key form of every key type (incl. Ethereum-type and generic secp256k1) besides the account form; key-form answer = account-form answer = own derivation.",
+    "C19": "Round 2: step histories on live MutableTransaction/Transaction objects (hash, sign, scalar edits, in-place payload edits through shared pointers, payload replacement, IntoImmutable, reuse for decoding); every reported hash = sha256d of the monitor's own unsigned serialization of its model and = the hash of a fresh object.",
+    "C21": "Round 2: token-balance storage items over the full unsigned range (boundary classes around 2^31..2^64-1, magnitude bands, both item versions, arbitrary items) and ONT/ONG approve/allowance end to end.",
+    "C23": "Round 2: hand-assembled CHECKMULTISIG scripts with threshold and key count in every push form (PUSHM1..PUSH16, PUSHBYTES1-9, PUSHDATA1/2/4) and value class (wraps modulo 2^8k, negatives, paddings, >1024 keys); an operand that is the count under neither byte order must be rejected; GetSig must agree with GetProgramInfo.",
+    "C24": "Round 2: allocation-volume oracle per message type (hostile inner counts in well-formed frames up to MiBs, bound calibrated on the densest well-formed payload of the type) and real link.Link objects over net.Pipe/TCP with pipelined frames, slow consumers and a concurrent closer in 8 modes (no panic, delivered frames re-serialize, in-order subsequence).",
+    "C27": "Round 2: member values of every length class up to 256 KiB with flips/cuts/growth in every region of the value; sibling lists differing in the last byte of the longest value.",
+    "C29": "Round 2: rounds started by real Server objects (startNewRound/updateParticipantConfig) around a config-change block in 7 kinds of view change, before and after the persist notification, compared with the selection from the configuration in force.",
+    "C31": "Round 2: statements restated with fresh randomized signatures (5 modes) on the real pool, and single-node games on a real vbft.Server (N in {4,7,10}) whose other peers and timers the monitor plays: every SealBlock decision needs N-(N-1)/3 distinct verified signers over that block.",
+    "C33": "Round 2: peer-set sizes 1..13 with exactly q-1, q, q+1 distinct signers in 4 list layouts; every placement of duplicated signatures for n<=4 and sampled up to 13; 2-3 peer-set changes delivered in every order with probes signed by each known set.",
+    "C36": "Round 2: hot-IP rounds (inbound connections from several other IPs, then a barrier wave from one IP) and outbound re-dial scripts (established / handshaking / closed addresses, remote side holds its half of the handshake) judged by the connections the remote sides see established.",
+    "C38": "Round 2: every mutating operation at every account position under an obstructed save (failed operation leaves live wallet and file unchanged, also after reload) and the export flow (Clone+ToLowSecurity[+ToDefaultSecurity]+Save) while the original keeps being used.",
+    "C43": "Round 2: commits that fail between saveBlockToBlockStore and CommitTo (cross-chain store closed / hook panic) and are retried in the same process with the same or another block; every stored bloom re-read after restart.",
+}
+for _pid, _t in ROUND2.items():
+    CHECKS[_pid]["text"] = CHECKS[_pid]["text"] + " " + _t
